@@ -131,7 +131,7 @@ func init() {
 	// C02 — lexical scoping and state flow of variables versus fields
 	registerSeq(seqSpec{
 		id: "C02",
-		rule: "explicit enumeration of all statement sequences up to length L (quick 5, thorough 7; sequences whose prefix is rejected at compile time are not extended, rejection being absorbing) over a 21-symbol alphabet of declarations (with/without initializer, self-referencing initializer), " +
+		rule: "explicit enumeration of all statement sequences up to length L (quick 6, thorough 7; sequences whose prefix is rejected at compile time are not extended, rejection being absorbing) over a 21-symbol alphabet of declarations (with/without initializer, self-referencing initializer), " +
 			"assignments (plain, nested in sub-expressions, chained), reads, block open/close with two names x,y and nesting <=3; every sequence is closed and executed by the real Interpret and by the reference evaluator " +
 			"(scope chain of maps). Compared: printed values, Block fields, compile-diagnostic class and position, runtime-error class and position. A state is a statement sequence (path in the reference model's transition system); every path is replayed on the implementation.",
 		sub: newRefSub("c02.seq"),
@@ -143,7 +143,7 @@ func init() {
 			{Top: "def a {", In: "def a {", Delta: 1}, {Top: "def b \"n\" {", In: "def b \"n\" {", Delta: 1}, {In: "}", Delta: -1},
 			both("var y"), both("print x + y"),
 		},
-		quickLen: 5, thorLen: 7, maxNest: 3, budgetQ: 100, budgetT: 1500,
+		quickLen: 6, thorLen: 7, maxNest: 3, budgetQ: 100, budgetT: 1500,
 		mustSee: []string{"accepted-ok", "rejected:undefined", "rejected:redeclared", "accepted-rterr:unresolved", "accepted-rterr:types"},
 		extra: func(c *fw.Ctx, do func(string)) {
 			deepFieldPrograms(5, do)
